@@ -107,7 +107,7 @@ def plan_C01(tier):
     return qs, info
 
 
-OPS = {"GO": 1, "GA": 2, "N": 3, "LO": 4, "LA": 5, "RAW": 6, "F": 7, "TW": 8, "FS": 9, "FE": 10, "NE": 11, "RS": 12, "VF": 13}
+OPS = {"GO": 1, "GA": 2, "N": 3, "LO": 4, "LA": 5, "RAW": 6, "F": 7, "TW": 8, "FS": 9, "FE": 10, "NE": 11, "RS": 12, "VF": 13, "GN": 14}
 
 
 def gen_scripts(root, K, alphabet=("GO", "GA", "N", "LO", "LA", "RAW", "F"), maximal_only=True):
@@ -510,6 +510,8 @@ def plan_C03(tier):
             for L in (127, 128, 300):
                 for root in (1, 2):
                     qs.append(bigbuf_query(3, root, kind, L))
+    else:
+        qs += [bigbuf_query(3, 2, "S", 128), bigbuf_query(3, 1, "B", 128)]
     qs += shape_variant_queries(3, 1, 6 if tier == "quick" else 8, variants=("full",), scalars=("T", "S1"), witness_every=4)
     qs += shape_variant_queries(3, 2, 5 if tier == "quick" else 7, variants=("full",), scalars=("T", "S1"), witness_every=4)
     qs += shape_variant_queries(3, 2, 4 if tier == "quick" else 5, variants=("full",), scalars=("B1", "D"), witness_every=4)
@@ -551,8 +553,27 @@ def lookup_shapes():
     return out
 
 
+def lookup_shapes_extra():
+    from .shapes import Node
+    return [
+        # a skipped nested object / array-of-object that contains a field which may carry the searched name
+        (Node("O", [Node("O", [Node("T")], [1]), Node("T")], [1, 1]), 2),
+        (Node("O", [Node("A", [Node("O", [Node("T")], [1])], []), Node("T")], [1, 1]), 2),
+        # 3-byte names (a compare that stops early, prefixes of length 2)
+        (Node("O", [Node("T"), Node("T")], [3, 3]), 3),
+        (Node("O", [Node("T"), Node("T")], [2, 3]), 3),
+        # four fields
+        (Node("O", [Node("T"), Node("T"), Node("T"), Node("T")], [1, 1, 1, 1]), 2),
+    ]
+
+
 def plan_C07(tier):
     qs = []
+    for node, fmax in lookup_shapes_extra():
+        for s in ([["GO", "F"]] if tier == "quick" else [["GO", "F"], ["GO", "F", "N"], ["GO", "N", "F"], ["GO", "FE"]]):
+            q = shape_script_query(7, node, s, "lookup", 1, tight=True, timeout=1500, extra={"FNAMEMAX": fmax})
+            q.mem_gb = 4
+            qs.append(q)
     # no trailing leave: after a lookup with a symbolic name the cursor position is symbolic, and every further call
     # has to be explored from all positions; the cursor offset after a failed lookup is asserted directly instead
     scripts = [["GO", "F"], ["GO", "F", "F"], ["GO", "F", "N"], ["GO", "N", "F"], ["GO", "FS"], ["GO", "FE"], ["GO", "NE"]]
@@ -751,6 +772,8 @@ def plan_C10(tier):
             for L in (127, 128):
                 for root in (1, 2):
                     qs.append(bigbuf_query(10, root, kind, L))
+    else:
+        qs += [bigbuf_query(10, 2, "S", 128), bigbuf_query(10, 1, "B", 128), bigbuf_query(10, 2, "S", 127)]
     qs += shape_variant_queries(10, 1, 6 if tier == "quick" else 8, variants=("full",), scalars=("T", "S1"), witness_every=4)
     qs += shape_variant_queries(10, 2, 5 if tier == "quick" else 7, variants=("full",), scalars=("T", "S1"), witness_every=4)
     qs += shape_variant_queries(10, 2, 4 if tier == "quick" else 5, variants=("full",), scalars=("B1", "D"), witness_every=4)
@@ -918,6 +941,14 @@ def plan_C05(tier):
     for s in ([[1, 2], [1, 8, 5, 2]] if tier == "quick" else RT_SHAPES[:6]):
         if s[0] == 1:
             qs.append(rt_query(s, ["RT_WVERIFY"], timeout=3000))
+    # two (three) fields whose names have the SAME length 2 / 3, content symbolic and ascending per the reference compare
+    # (embedded 0x00, bytes >= 0x80 included): the library's own verify must accept what the writer produced
+    for s, L in ((([1, 8, 5, 8, 5, 2], 2), ([1, 8, 5, 8, 5, 2], 3)) if tier == "quick" else
+                 (([1, 8, 5, 8, 5, 2], 2), ([1, 8, 5, 8, 5, 2], 3), ([1, 8, 5, 8, 5, 8, 5, 2], 2))):
+        q = rt_query(s, ["RT_VERIFY"], srcmax=3, timeout=2400)
+        q.defines["RT_STRLEN"] = L
+        q.name += ".names%d" % L
+        qs.append(q)
     info = {
         "rule": "H-WSTEP with the C05 assertion set: one query per scalar call kind: all int64 / all double bit patterns / all "
                 "lengths, bytes compared with the reference canonical encoder. Round trip: one query per concrete well-formed "
@@ -958,6 +989,12 @@ def print_shapes(tier):
         for node in shapes.gen_shapes(root, T, ("T", "B1"), 3):
             out.append((root, node))
     for root, node in token_nodes():
+        out.append((root, node))
+    # nesting of four levels with trailing siblings, and container-sibling pairs (separator state across levels)
+    for root in (1, 2):
+        for node in shapes.chain_shapes(root, 4, True):
+            out.append((root, node))
+    for root, node in sibling_nodes():
         out.append((root, node))
     return out
 
@@ -1077,6 +1114,17 @@ def plan_C09(tier):
             q.group = "h_script.latch"
             api.append(q)
     qs += api[:8] if tier == "quick" else api
+    # errors raised by the API itself on VALID documents: WRONG_TYPE from next_ensure / field_ensure (type symbolic),
+    # STATE from get_name where no name exists; the script keeps calling afterwards
+    for root, node, s in [(2, Node("A", [Node("T"), Node("T")], []), ["GA", "NE", "N", "GA", "LA"]),
+                          (2, Node("A", [Node("T"), Node("A", [], [])], []), ["GA", "N", "GN", "N", "GA", "RAW", "LA"]),
+                          (1, Node("O", [Node("T")], [1]), ["GO", "NE", "GN", "N", "LO"]),
+                          (2, Node("A", [Node("O", [Node("T")], [1]), Node("T")], []), ["GA", "GN", "N", "GO", "N", "LO", "LA"])]:
+        q = shape_script_query(9, node, s, "api-error", root, extra={"MODE": 3}, timeout=1200)
+        q.name = "latch-api.p9.%s.%s" % (node.label(), "-".join(s))
+        q.mem_gb = 4
+        q.tags.update({"family": "H-ANY (latch)", "what": "error raised by next_ensure / field_ensure / get_name on a valid document, calls continue"})
+        qs.append(q)
     # writer
     for c in ((0, 5, 12) if tier == "quick" else (0, 1, 2, 5, 9, 12, 20)):
         for fn in range(1, 12):
@@ -1252,6 +1300,13 @@ def plan_C16(tier):
         qs += shape_variant_queries(16, root, 0, variants=("full", "skip", "leave", "raw") if tier != "quick" else ("full", "skip"),
                                     nodes=nodes, witness_every=8)
     qs += exhaustive_script_queries(16, 6, 5, 8) if tier == "quick" else exhaustive_script_queries(16, 7, 6, 9)
+    # hostile input: arbitrary bytes, ops executed unconditionally, token count + unwinding assertions (termination)
+    for s, n, root in ([(["GO", "N", "LO"], 4, 1), (["GA", "N", "LA"], 4, 2), (["GO", "F"], 5, 1), (["GA", "N", "N"], 4, 2), (["GO", "LO"], 5, 1), (["GA", "LA"], 5, 2)]
+                       if tier == "quick" else
+                       [(["GO", "N", "LO"], 6, 1), (["GA", "N", "LA"], 6, 2), (["GO", "F"], 7, 1), (["GA", "N", "N"], 6, 2), (["GO", "LO"], 8, 1), (["GA", "LA"], 8, 2),
+                        (["GO", "F", "F"], 6, 1), (["GA", "N", "GA", "LA"], 6, 2), (["GO", "N", "GO", "LO"], 7, 1), (["GA", "N", "RAW"], 6, 2), (["GO", "N", "N", "N"], 6, 1)]):
+        q = script_query(16, s, n, 2, root, mode=3, J=None, timeout=2400)
+        qs.append(q)
     lk = [Node("O", [Node("O", [Node("T"), Node("T")], [0, 1]), Node("T")], [1, 1]), Node("O", [Node("A", [Node("T"), Node("T")], []), Node("T")], [1, 1]),
           Node("O", [Node("T"), Node("O", [Node("T")], [0]), Node("T")], [1, 1, 2])]
     for node in lk:
